@@ -51,7 +51,7 @@ def run(ctx):
             rep[0] += 1
             ctx.violation(msg, obj, no_failing_input=nf)
 
-    cases = c01.build_cases(ctx, vh, model, nsets=45, real_frac=0.0)
+    cases = c01.build_cases(ctx, vh, model, nsets=45, real_frac=0.0, volume_damage=True)
     # the separating patterns, for every file of every set: slices all findable, files still wrong
     rng = ctx.rng
     seen_sets = []
@@ -139,6 +139,9 @@ def run(ctx):
         replay = {"lines": [c["vline"]], "desc": c["desc"], "impl": a[:1500], "model": b[:1500], "class": {"pattern": kind}}
         if pa["res"] in ("panic", "crash"):
             report("Verify crashed (%s)" % c["desc"], replay); continue
+        if ca is None and c["fs"].get(ps.index) == ps.created[ps.index] and pa["res"].startswith("err"):
+            report("Verify returns an error (%s) although the index file is intact: damaged data or recovery files must show in the counts (%s)" % (pa["res"], c["desc"]), replay)
+            continue
         if ca is None:
             if a != b:
                 report("Verify outcome differs from the model (%s): impl=%s model=%s" % (c["desc"], a[:80], b[:80]), replay, nf=True)
@@ -165,8 +168,8 @@ def run(ctx):
         if ca["usable"] + ca["unusable"] != len(sl):
             report("usable + unusable = %d but the set has %d slices (%s)" % (ca["usable"] + ca["unusable"], len(sl), c["desc"]), replay); continue
         # (c) usable recovery blocks = blocks in the surviving (undamaged) recovery files
-        if "+vol" not in c["desc"]:
-            blocks = sum(P.vol_blocks(v) for v in ps.volumes if v in c["fs"])
+        if True:
+            blocks = P.intact_block_count(ps, c["fs"])       # complete recovery packets still present in any <base>.*.par2 file
             if ca["pusable"] != blocks:
                 report("%d recovery blocks lie beside the index but %d are counted usable (%s)" % (blocks, ca["pusable"], c["desc"]), replay); continue
         # (d) possible iff unusable <= usable blocks
